@@ -49,18 +49,30 @@ package metrics
 //@ ghostdecl otsStr int64
 //@ ghostdecl otsStrOk int
 //@ spec otsdbSec(t int64) uint32 = ite(uint64(t) >= 99999999999, uint32(t / 1000), uint32(t))
+// (C08: the value stored for a datapoint is the float the JSON number denotes —
+// what jsonparser's float parser returns for the bytes of the "value" field, not
+// a value that went through an integer on the way: -0 keeps its sign, an integer
+// literal beyond int64 keeps its magnitude.)  Ghost otsValParsed: the float
+// parser's result for this field.
+//@ ghostdecl otsValParsed float64
+//@ ghostdecl otsValOk int
 //@ func ExtractOTSDBPayload$1
-//@   props C16
+//@   props C16 C08
 //@   mode real
 //@   note the float timestamp path shares this closure; its float64 arithmetic is treated as exact real arithmetic (mode real) so that the integer paths, which are the ones claimed, are decidable; nothing is claimed about the float path
 //@   privatecaptures
-//@   ghostinit ghost(0, "otsIntOk") == 0 && ghost(0, "otsStrOk") == 0
+//@   ghostinit ghost(0, "otsIntOk") == 0 && ghost(0, "otsStrOk") == 0 && ghost(0, "otsValOk") == 0
 //@   site callret jp.ParseInt #1:
 //@     ghostset ghost(0, "otsInt") = result0
 //@     ghostset ghost(0, "otsIntOk") = ite(result1 == nil, 1, 0)
 //@   site callret strconv.ParseInt #1:
 //@     ghostset ghost(0, "otsStr") = result0
 //@     ghostset ghost(0, "otsStrOk") = ite(result1 == nil, 1, 0)
+//@   site callret jp.ParseFloat #2:
+//@     ghostset ghost(0, "otsValParsed") = result0
+//@     ghostset ghost(0, "otsValOk") = ite(result1 == nil, 1, 0)
+//@   site store dpVal #1:
+//@     assert [the-stored-value-is-what-the-float-parser-returned-for-the-value-field] ghost(0, "otsValOk") == 1 && feq(value, ghost(0, "otsValParsed"))
 //@   ensures [integer-timestamp-in-seconds] implies(ghost(0, "otsIntOk") == 1 && result == nil, *ts == otsdbSec(ghost(0, "otsInt")))
 //@   ensures [numeric-string-timestamp-in-seconds] implies(ghost(0, "otsStrOk") == 1 && result == nil, *ts == otsdbSec(ghost(0, "otsStr")))
 //@ end
